@@ -15,10 +15,10 @@ failed=$(grep -E "^\[  FAILED  \] [A-Za-z]" _b/tests.log | grep -v "TestObjDecod
 if [ -n "$failed" ]; then echo "TESTS FAIL with change: $failed" | tee -a $log; exit 1; fi
 echo "tests pass with change" | tee -a $log
 bash out/run_demo.sh $W/_b >> $log 2>&1; rc_with=$?
-git stash -q
+git checkout -q -- src   # (not `git stash`: the stash is shared by all worktrees of a repository)
 cmake --build _b -j16 >> $log 2>&1
 bash out/run_demo.sh $W/_b >> $log 2>&1; rc_without=$?
-git stash pop -q
+git apply /tmp/mut/$id.patch
 cmake --build _b -j16 >> $log 2>&1
 echo "demo rc with change=$rc_with without=$rc_without" | tee -a $log
 if [ $rc_with -ne 0 ] && [ $rc_without -eq 0 ]; then
